@@ -42,6 +42,7 @@ Section Loop.
     | ASwitch h cc cn _ => switch_fn h cc cn
     | ARaiseSW h cc cn => raise (XSW h cc cn None)
     | AOther => raise XOther
+    | ADirect _ _ _ => ret      (* only a scripted frame action (wf_b): see run_frame *)
     end.
 
   (* the doubles log every action before performing it *)
@@ -126,12 +127,41 @@ Definition fres_of (r : res) : fres :=
   | RExn (XSW _ _ _ _) => FSwitch
   end.
 
+Definition prefix (l : list entry) (x : option (state * list entry * fres))
+  : option (state * list entry * fres) :=
+  match x with Some (s, l', r) => Some (s, l ++ l', r) | None => None end.
+
 Section Run.
   Variable fuel : nat.
   Variable nps : list nat.
 
+  (* how the iteration goes on after the acting processor: the action returned
+     (the remaining processors [rest] run), raised SwitchWorld (except clause
+     of loop()), or raised something else *)
+  Definition after_action (x : option (state * list entry * res)) (rest : list entry)
+    : option (state * list entry * fres) :=
+    match x with
+    | None => None
+    | Some (s2, l2, RNorm) => Some (s2, l2 ++ rest, FCont)
+    | Some (s2, l2, RExn (XSW h cc cn _)) =>
+        match handler (react_n fuel) fuel h cc cn s2 with
+        | None => None
+        | Some (s3, l3, r3) => Some (s3, l2 ++ l3, fres_of r3)
+        end
+    | Some (s2, l2, r) => Some (s2, l2, fres_of r)
+    end.
+
+  (* the_loop.switch(h, cc, cn) called by the acting processor: SimpleLoop.switch
+     runs inside the frame (no exception, no on_switch_in / out, the world left
+     is not disabled) *)
+  Definition direct (o : origin) (h : Z) (cc cn : bool) : M := fun s =>
+    (emit [EAct o (ADirect h cc cn) (s_curw s) (s_curh s)] ;;
+     loop_switch (react_n fuel) h cc cn) s.
+
   (* one iteration of SimpleLoop.loop; last = self.last_timestamp.  The new
-     value of last_timestamp is always Some (f_t f). *)
+     value of last_timestamp is always Some (f_t f).  The processors that run
+     are those of the world that was current when world.process was called,
+     also after a direct switch. *)
   Definition run_frame (last : option Z) (f : frame) (s : state)
     : option (state * list entry * fres) :=
     let t := f_t f in                                     (* timestamp = self.time_function() *)
@@ -141,19 +171,13 @@ Section Run.
     let np := np_of nps (s_curh s) in
     let pos := eff_pos (f_org f) (f_pos f) np in
     let head := EClock t w (s_curh s) :: procs w dt 0 (S pos) in
+    let rest := procs w dt (S pos) (np - S pos) in
     let '(s1, lp) := do_pokes (f_pokes f) s0 in
     match f_act f with
-    | ANormal => Some (s1, head ++ lp ++ procs w dt (S pos) (np - S pos), FCont)
-    | _ =>
-        match perform (react_n fuel) (f_org f) (f_act f) s1 with
-        | None => None
-        | Some (s2, l2, RExn (XSW h cc cn _)) =>          (* except SwitchWorld as ex: *)
-            match handler (react_n fuel) fuel h cc cn s2 with
-            | None => None
-            | Some (s3, l3, r3) => Some (s3, head ++ lp ++ l2 ++ l3, fres_of r3)
-            end
-        | Some (s2, l2, r) => Some (s2, head ++ lp ++ l2, fres_of r)
-        end
+    | ANormal => Some (s1, head ++ lp ++ rest, FCont)
+    | ADirect h cc cn => prefix (head ++ lp) (after_action (direct (f_org f) h cc cn s1) rest)
+    | _ => prefix (head ++ lp)
+                  (after_action (perform (react_n fuel) (f_org f) (f_act f) s1) rest)
     end.
 
   Fixpoint run_frames (last : option Z) (fs : list frame) (ek : endkind) (s : state)
@@ -248,8 +272,15 @@ Definition frame_origin_ok (f : frame) : bool := negb (is_callback (f_org f)).
 Definition top_escapes (e : entry) : bool :=
   match e with ETopExc TSwitch _ _ => true | _ => false end.
 
+(* a direct the_loop.switch is a scripted frame action, not a reaction *)
+Definition is_direct (a : action) : bool :=
+  match a with ADirect _ _ _ => true | _ => false end.
+Definition op_reacts (o : op) : list reaction :=
+  match o with OTop _ _ _ rs => rs | OStart _ _ rs => rs end.
+
 Definition wf_b (c : rcase) : bool :=
-  forallb (fun n => (1 <=? n)%nat) (c_nps c)
+  forallb (fun x => forallb (fun r => negb (is_direct (snd r))) (op_reacts (fst x))) (c_ops c)
+  && forallb (fun n => (1 <=? n)%nat) (c_nps c)
   && first_is_top (c_ops c)
   && forallb (fun x => match fst x with
                        | OTop _ _ _ _ => negb (existsb top_escapes (snd x))
